@@ -29,6 +29,7 @@ func c13(c *Ctx) {
 	c13atomicSnapshot(c)
 	c13loadApplies(c)
 	c13kubeTombstone(c)
+	c13optionsFirst(c)
 	c13waitHolding(c)
 }
 
